@@ -94,6 +94,19 @@ func checkInitEvents(c *report.Ctx) {
 			if len(an.CallsTo(cl, "L/rapid.sendInitRuntimeDoneLogEvent")) == 1 {
 				return "runtime-done"
 			}
+			// the report deferred as a closure (its arguments read at exit instead of at registration): the same
+			// deferred emission as far as its place among the defers goes
+			if rep := an.CallsTo(cl, "L/rapid.sendInitReportLogEvent"); len(rep) == 1 {
+				fixed := true
+				for _, a := range rep[0].Common().Args {
+					if !fixedAtRegistration(d, a) {
+						fixed = false
+					}
+				}
+				if fixed {
+					return "report"
+				}
+			}
 		}
 		if strings.Contains(cal, "RecordInitEndTime") {
 			return "xray"
@@ -163,6 +176,104 @@ func checkInitEvents(c *report.Ctx) {
 	c.Check("R-CONST", name+"/callers-phase", "the first init is tagged 'init', an initialisation run inside an invocation is tagged 'invoke'", got["L/rapid.handleInit"] == "init" && got["L/rapid.doInvoke"] == "invoke" && len(got) == 2, fpos(f), len(got), "callers: %v", got)
 }
 
+// addrWrites lists the stores made through address x (a cell, a captured variable, a field of one) anywhere in the
+// function that owns it and the closures it is handed to; ok is false when the address is used in a way that is
+// not followed (passed on, stored somewhere, ...).
+func addrWrites(x ssa.Value, depth int) (stores []*ssa.Store, ok bool) {
+	refs := x.Referrers()
+	if refs == nil || depth > 4 {
+		return nil, false
+	}
+	for _, ref := range *refs {
+		switch r := ref.(type) {
+		case *ssa.UnOp:
+			if r.Op != token.MUL {
+				return nil, false
+			}
+		case *ssa.DebugRef:
+		case *ssa.Store:
+			if r.Addr != x || r.Val == x {
+				return nil, false
+			}
+			stores = append(stores, r)
+		case *ssa.FieldAddr:
+			sub, subOK := addrWrites(r, depth+1)
+			if !subOK {
+				return nil, false
+			}
+			stores = append(stores, sub...)
+		case *ssa.MakeClosure:
+			child, isF := r.Fn.(*ssa.Function)
+			if !isF {
+				return nil, false
+			}
+			for i, b := range r.Bindings {
+				if b == x {
+					if i >= len(child.FreeVars) {
+						return nil, false
+					}
+					sub, subOK := addrWrites(child.FreeVars[i], depth+1)
+					if !subOK {
+						return nil, false
+					}
+					stores = append(stores, sub...)
+				}
+			}
+		default:
+			return nil, false
+		}
+	}
+	return stores, true
+}
+
+// fixedAtRegistration: v, an argument computed inside the closure that d defers, has at exit the value it had when
+// d was registered: a constant, or read (possibly field by field) from a captured variable that is written once, in
+// the registering function, before the registration. `defer func() { f(x) }()` is then `defer f(x)`.
+func fixedAtRegistration(d *ssa.Defer, v ssa.Value) bool {
+	mc, isMC := d.Call.Value.(*ssa.MakeClosure)
+	if !isMC {
+		return false
+	}
+	cl, _ := mc.Fn.(*ssa.Function)
+	if cl == nil {
+		return false
+	}
+	if _, isC := v.(*ssa.Const); isC {
+		return true
+	}
+	u, ok := v.(*ssa.UnOp)
+	if !ok || u.Op != token.MUL {
+		return false
+	}
+	addr := u.X
+	for {
+		fa, isFA := addr.(*ssa.FieldAddr)
+		if !isFA {
+			break
+		}
+		addr = fa.X
+	}
+	fv, isFV := addr.(*ssa.FreeVar)
+	if !isFV {
+		return false
+	}
+	for i, x := range cl.FreeVars {
+		if x != fv || i >= len(mc.Bindings) {
+			continue
+		}
+		cell, isCell := mc.Bindings[i].(*ssa.Alloc)
+		if !isCell {
+			return false
+		}
+		stores, followed := addrWrites(cell, 0)
+		if !followed || len(stores) != 1 || stores[0].Addr != ssa.Value(cell) {
+			return false
+		}
+		return stores[0].Parent() == d.Parent() && an.InstrDominates(stores[0], d)
+	}
+	return false
+}
+
 func deferClosure(d *ssa.Defer) *ssa.Function {
 	switch v := d.Call.Value.(type) {
 	case *ssa.MakeClosure:
@@ -180,6 +291,25 @@ func isParamOrFree(v ssa.Value, name string) bool {
 	}
 	if isFreeVarLoad(v, name) {
 		return true
+	}
+	// a captured variable under another name that holds the parameter and nothing else (one store, of the parameter)
+	if u, ok := v.(*ssa.UnOp); ok && u.Op == token.MUL {
+		if _, isFV := u.X.(*ssa.FreeVar); isFV && u.Parent() != nil {
+			if cell, isCell := freeVarBinding(u.Parent(), v).(*ssa.Alloc); isCell && cell.Referrers() != nil {
+				n, okp := 0, false
+				for _, ref := range *cell.Referrers() {
+					if st, isSt := ref.(*ssa.Store); isSt && st.Addr == ssa.Value(cell) {
+						n++
+						if p, isP := st.Val.(*ssa.Parameter); isP && p.Name() == name {
+							okp = true
+						}
+					}
+				}
+				if n == 1 && okp {
+					return true
+				}
+			}
+		}
 	}
 	return isParamOrCaptured(v, name)
 }
@@ -643,7 +773,12 @@ func checkWatcherRecordsBeforeCancel(c *report.Ctx) {
 	}
 	stores := an.CallsTo(f, "L/appctx.StoreFirstFatalError")
 	cancels := an.CallsTo(f, regSvcI+"CancelFlows")
-	ok := len(stores) == 2 && len(cancels) == 1
+	// the two recordings: two calls with the fault type written out, or one call handed the type the
+	// classification chose (read per incoming edge of the join)
+	wfacts := an.NewFacts(f)
+	recs, _ := constRecordings(f, wfacts, "L/appctx.StoreFirstFatalError", 1)
+	nrec := recordingCount(f, wfacts, "L/appctx.StoreFirstFatalError", 1)
+	ok := nrec == 2 && len(cancels) == 1
 	if ok {
 		isd := an.CallsTo(f, "L/rapid.shutdownContext.isShuttingDown")
 		isSD := func(v ssa.Value) bool {
@@ -692,12 +827,23 @@ func checkWatcherRecordsBeforeCancel(c *report.Ctx) {
 			ok = true
 		}
 	}
-	c.Check("R-ORDER", an.FuncName(f)+"/record-before-cancel", "for an unexpected exit the watcher records the first fatal error (Runtime.ExitError / Extension.Crash) before it cancels the flows, so the handler woken by the cancellation finds it", ok, fpos(f), len(stores)+len(cancels), "stores: %d, cancels: %d, every non-nil error definition is accompanied by a store that precedes the cancel: %v", len(stores), len(cancels), ok)
+	c.Check("R-ORDER", an.FuncName(f)+"/record-before-cancel", "for an unexpected exit the watcher records the first fatal error (Runtime.ExitError / Extension.Crash) before it cancels the flows, so the handler woken by the cancellation finds it", ok, fpos(f), nrec+len(cancels), "stores: %d, cancels: %d, every non-nil error definition is accompanied by a store that precedes the cancel: %v", nrec, len(cancels), ok)
 	// the two constants
 	var kinds []string
+	seenKind := map[ssa.CallInstruction]map[string]bool{}
+	for _, r := range recs {
+		if seenKind[r.call] == nil {
+			seenKind[r.call] = map[string]bool{}
+		}
+		if !seenKind[r.call][r.kind] {
+			seenKind[r.call][r.kind] = true
+			kinds = append(kinds, r.kind)
+		}
+	}
 	for _, s := range stores {
-		v, _ := an.ConstString(s.Common().Args[1])
-		kinds = append(kinds, v)
+		if len(seenKind[s]) == 0 {
+			kinds = append(kinds, "") // (a recording whose type is not a constant on any edge)
+		}
 	}
 	sort.Strings(kinds)
 	c.Check("R-CONST", an.FuncName(f)+"/fault-types", "a runtime exit is recorded as Runtime.ExitError, any other process exit as Extension.Crash", strings.Join(kinds, ",") == "Extension.Crash,Runtime.ExitError", fpos(f), len(kinds), "%v", kinds)
